@@ -56,20 +56,22 @@ func serverMode() {
 	}
 }
 
-func runServer(c srvCase) (codes []int) {
-	defer func() {
-		if r := recover(); r != nil {
-			codes = append(codes, -2)
-		}
-	}()
+// startServer brings up the real server for one configuration on a free loopback port; stop() shuts it down and removes
+// its directories. dagsDir / suspendDir are the directories the API handlers read and write.
+type liveServer struct {
+	port               int
+	dir, dags, suspend string
+	stop               func()
+}
+
+func startServer(c srvCase) (ls *liveServer) {
 	l, err := net.Listen("tcp", "127.0.0.1:0")
 	if err != nil {
-		return []int{-1}
+		return nil
 	}
 	port := l.Addr().(*net.TCPAddr).Port
 	_ = l.Close()
 	dir, _ := os.MkdirTemp("", "verif-auth-srv-")
-	defer os.RemoveAll(dir)
 	cfg := &config.Config{Host: "127.0.0.1", Port: port, DAGs: filepath.Join(dir, "dags"), DataDir: filepath.Join(dir, "data"),
 		SuspendFlagsDir: filepath.Join(dir, "suspend"), APIBaseURL: "/api/v1", BasePath: unhex(c.Base),
 		IsBasicAuth: c.HasBasic, BasicAuthUsername: unhex(c.User), BasicAuthPassword: unhex(c.Pass),
@@ -85,27 +87,39 @@ func runServer(c srvCase) (codes []int) {
 		defer func() { _ = recover() }()
 		_ = svr.Serve(ctx)
 	}()
-	defer func() {
+	stop := func() {
 		svr.Shutdown()
 		cancel()
 		select {
 		case <-done:
 		case <-time.After(5 * time.Second):
 		}
-	}()
-	up := false
+		os.RemoveAll(dir)
+	}
 	for k := 0; k < 200; k++ {
 		cn, err := net.DialTimeout("tcp", fmt.Sprintf("127.0.0.1:%d", port), 200*time.Millisecond)
 		if err == nil {
 			cn.Close()
-			up = true
-			break
+			return &liveServer{port: port, dir: dir, dags: cfg.DAGs, suspend: cfg.SuspendFlagsDir, stop: stop}
 		}
 		time.Sleep(25 * time.Millisecond)
 	}
-	if !up {
+	stop()
+	return nil
+}
+
+func runServer(c srvCase) (codes []int) {
+	defer func() {
+		if r := recover(); r != nil {
+			codes = append(codes, -2)
+		}
+	}()
+	ls := startServer(c)
+	if ls == nil {
 		return []int{-1}
 	}
+	defer ls.stop()
+	port := ls.port
 	hc := &http.Client{Timeout: 5 * time.Second, CheckRedirect: func(*http.Request, []*http.Request) error { return http.ErrUseLastResponse }}
 	for _, r := range c.Reqs {
 		req, err := http.NewRequest(r.Method, fmt.Sprintf("http://127.0.0.1:%d%s", port, unhex(r.Path)), nil)
